@@ -11,6 +11,7 @@
 -/
 import Desync.Proofs.PoolCSProofs
 import Desync.Proofs.PoolProofs
+import Desync.Proofs.ChunkStreamProofs
 
 namespace Desync.C06
 open Desync
@@ -58,5 +59,18 @@ theorem gen_workers :
     Gen.chopRereadVerified = true ∧
     Gen.workerCopyCalls = ["HasChunk", "GetChunk", "StoreChunk"] ∧ Gen.workerCopyReturnsEveryError = true ∧
     Gen.workerChopFileCalls = ["readChunkFromFile", "StoreChunk"] ∧ Gen.workerChopFileReturnsEveryError = true := by decide
+
+/-- `ChunkStream` (make of a stream, tar -i): success means that `StoreChunk` returned nil for EVERY
+    chunk of the produced index — for every worker count, interleaving and fault pattern -/
+theorem chunkstream_ok_all_stored (H : Bytes → Bytes) (jobs : List (Nat × Bytes)) (n : Nat) (s : CStream.St)
+    (h : CStream.Reachable H (CStream.St.init jobs n) s) (rows : List CStream.Row)
+    (hr : s.result = some (.ok rows)) : ∀ j, j < jobs.length → j ∈ s.stored :=
+  CStream.ok_all_stored H jobs n s h rows hr
+
+/-- … and a failed store, a chunker error or an early stop of the feeder is never reported as success -/
+theorem chunkstream_failure_not_ok (H : Bytes → Bytes) (jobs : List (Nat × Bytes)) (n : Nat) (s : CStream.St)
+    (h : CStream.Reachable H (CStream.St.init jobs n) s) (rows : List CStream.Row)
+    (hr : s.result = some (.ok rows)) : s.groupErr = false ∧ s.broke = false ∧ s.next = jobs.length :=
+  CStream.failure_not_ok H jobs n s h rows hr
 
 end Desync.C06
